@@ -34,5 +34,7 @@ type BadgerStore interface {
 
 	// need access ot in-memory mapping
 	IsDatasetDeleted(datasetID types.InternalDatasetID) bool
+	// LockDatasetForWrite keeps writers of the dataset out until the returned function is called
+	LockDatasetForWrite(datasetID types.InternalDatasetID) (unlock func())
 	LegacyNamespaceAccess
 }
